@@ -213,8 +213,8 @@ func implCLI(env *Env, op Op) Result {
 	if op.Name == "cli.run" {
 		// exit status, stdout of generate (nothing else is compared on stdout), the tree
 		so := []byte{}
-		if (string(a[1]) == "generate" && c.exit == 0) || string(a[1]) == "compare" {
-			so = c.stdout // compare: everything it prints, whatever the status
+		if string(a[1]) != "generate" || c.exit == 0 {
+			so = c.stdout // everything the command prints, whatever the status
 		}
 		out = append(out, so)
 	}
@@ -344,7 +344,14 @@ func invocationCases(r *rand.Rand, n int) []Case {
 			}
 			outGiven := chance(r, 0.5)
 			outV := pick(r, []string{"text", "github", "github", "GitHub", "json", "", "TEXT", "git hub"})
+			if k%3 == 1 && (cmd == "format" || cmd == "renumber" || cmd == "compare") {
+				// the commands that print differently in GitHub mode, in GitHub mode
+				outGiven, outV = true, "github"
+			}
 			flags := pick(r, []string{"", "", "a", "a", "c", "ac", "a"})
+			if k%3 == 1 && (cmd == "format" || cmd == "renumber") {
+				flags = pick(r, []string{"a", "ac", "ac", "c"})
+			}
 			var pos []string
 			switch weighted(r, []int{5, 5, 1, 1}) {
 			case 0:
